@@ -20,7 +20,7 @@ package main
 //   f  NewZlispWithFuncs(small table)  g  NewZlispWithFuncs(all builtins + one more that sorts first: every number shifts)
 //   d  A.Duplicate()   c  A.Clone()    (post only; share A's tables)
 //   u  A itself expands and evaluates an index, a slice and a selector once (post only; fills anything lazy)
-// `<akind>//` is the history-free reference. Every B evaluates `{v[1] + h.k + v[0:2][0]}` once (errors ignored).
+// `<akind>//` is the history-free reference. Every B evaluates `{v[1] + h.k + v[0:2][0] + h .k}` once (errors ignored).
 
 import (
 	"strings"
@@ -67,14 +67,14 @@ func xnewKind(k byte) *zygo.Zlisp {
 	return env
 }
 
-const xuseProg = "(def v [10 20 30]) (def h (hash k:1)) {v[1] + h.k + v[0:2][0]}\n"
+const xuseProg = "(def v [10 20 30]) (def h (hash k:1)) {v[1] + h.k + v[0:2][0] + h .k}\n"
 
 func xuse(env *zygo.Zlisp) {
 	defer func() { recover() }()
 	if _, err := env.EvalString(xuseProg); err != nil {
 		env.Clear()
 	}
-	if _, err := env.EvalString("(infixExpand {v[1]; h.k; v[0:1]})\n"); err != nil {
+	if _, err := env.EvalString("(infixExpand {v[1]; h .k; v[0:1]})\n"); err != nil {
 		env.Clear()
 	}
 }
@@ -132,10 +132,10 @@ func xplay(h xhist, n int) ([]*zygo.Zlisp, []*zygo.Zlisp) {
 		case 'u':
 			for _, a := range as {
 				// in a scope of its own names: the bindings the values are compared on stay untouched
-				if _, err := a.EvalString("(let [uv [1 2 3] uh (hash k:1)] {uv[1] + uh.k + uv[0:2][0]})\n"); err != nil {
+				if _, err := a.EvalString("(let [uv [1 2 3] uh (hash k:1)] {uv[1] + uh.k + uv[0:2][0] + uh .k})\n"); err != nil {
 					a.Clear()
 				}
-				if _, err := a.EvalString("(infixExpand {uv[1]; uh.k; uv[0:1]})\n"); err != nil {
+				if _, err := a.EvalString("(infixExpand {uv[1]; uh .k; uv[0:1]})\n"); err != nil {
 					a.Clear()
 				}
 			}
